@@ -1,9 +1,1694 @@
-//! stub — not built yet
+//! C16 — link-layer addressing: unicast IP packets go only to the hardware address learned for
+//! their next hop; discovery is rate limited; learned addresses stop being used after 60 s
+//! without confirmation; socket data waits for resolution and is not lost.
+//!
+//! Explicit-state BFS (core::bfs) over event histories executed on a REAL `Interface` with real
+//! `udp::Socket`s on a `SimDevice` (Ethernet+IPv4/ARP, Ethernet+IPv6/NDISC, IEEE 802.15.4+
+//! 6LoWPAN/NDISC).  A state is the history of events; it is replayed on a fresh interface.
+//!
+//! Reference model (independent of smoltcp): own addresses, a longest-prefix route table with
+//! expiry, a table IP -> {(hardware address, time of last eligible assertion/confirmation)}
+//! fed only by eligible messages, and one FIFO per socket of accepted, not yet transmitted
+//! datagrams.  Oracle: every frame handed to the device is parsed by `neigh::parse` (no
+//! smoltcp::wire) and judged against the model; see `NeighH::check_frame`.
+//!
+//! Lenient readings (statement leaves room; each can only accept more behaviours):
+//!  * "confirmed": any eligible assertion, or any IP packet addressed to one of our unicast
+//!    addresses whose IP source is the neighbor and whose link-layer source equals the asserted
+//!    address (this is what the code refreshes on), even if the last confirmation is older than
+//!    60 s ("resurrection": traffic from the neighbor at t confirms the address from t on).
+//!  * the model never forgets an assertion on an address change (the code flushes its cache).
+//!  * messages the RFCs allow a cache to take or leave (gratuitous ARP, NA without Override
+//!    while an entry exists) ADD an acceptable address without removing the current one.
+//!  * a route whose expiry instant equals the frame time may count as expired or not; two
+//!    matching routes with the same prefix length: either gateway is accepted.
+//!  * rate limit: only two requests for the SAME target less than 1 s apart are a violation;
+//!    the global minimum gap between any two requests is recorded as evidence.
+//!  * eligibility of a message: unicast hardware address, unicast protocol source that lies in
+//!    one of our subnets at the time of reception (the code checks the latter for ARP only; for
+//!    NDISC an off-link source can only create an entry that is never a next hop in the
+//!    configurations explored here, so the difference is unobservable).
+
+pub mod parse;
+mod stim;
+
 use crate::core::*;
-pub fn run(_tier: Tier) -> i32 {
-    eprintln!("harness not built yet");
-    2
+use crate::sim::*;
+use parse::*;
+use serde_json::json;
+use smoltcp::iface::{Config, Interface, Route, SocketHandle, SocketSet};
+use smoltcp::phy::Medium;
+use smoltcp::socket::{icmp, udp};
+use smoltcp::time::Instant;
+use smoltcp::wire::{
+    EthernetAddress, HardwareAddress, Ieee802154Address, Ieee802154Pan, IpAddress, IpCidr, IpEndpoint, Ipv4Address, Ipv6Address,
+};
+use std::collections::{BTreeMap, VecDeque};
+use std::sync::{Arc, Mutex};
+
+const SEC: i64 = 1_000_000;
+const LIFETIME: i64 = 60 * SEC;
+const MIN_GAP: i64 = SEC;
+const T0: i64 = 100 * SEC;
+const PAN: u16 = 0xabcd;
+const SOCK_PORT: u16 = 5000;
+const PEER_PORT: u16 = 6000;
+const ROUTE_LIFETIME: i64 = 60 * SEC;
+const ICMP_LEN: usize = 9;
+const BIG_ETH_MTU: usize = 114;
+fn big_len(med: Med) -> usize {
+    if med.is_eth() {
+        200
+    } else {
+        250
+    }
 }
-pub fn replay(_art: &serde_json::Value) -> i32 {
-    2
+
+// ---------------------------------------------------------------------------------------
+// world
+// ---------------------------------------------------------------------------------------
+
+#[derive(Clone, Copy, Debug, PartialEq, Eq, PartialOrd, Ord, Hash)]
+pub enum Med {
+    EthV4,
+    EthV6,
+    LowV6,
+}
+impl Med {
+    fn name(self) -> &'static str {
+        match self {
+            Med::EthV4 => "eth-ipv4",
+            Med::EthV6 => "eth-ipv6",
+            Med::LowV6 => "154-ipv6",
+        }
+    }
+    fn is_v4(self) -> bool {
+        self == Med::EthV4
+    }
+    fn is_eth(self) -> bool {
+        self != Med::LowV6
+    }
+}
+
+#[derive(Clone, Copy, Debug, PartialEq, Eq, PartialOrd, Ord, Hash)]
+pub enum Node {
+    N1,
+    N2,
+    N3,
+    G1,
+    G2,
+}
+const NODES: [Node; 5] = [Node::N1, Node::N2, Node::N3, Node::G1, Node::G2];
+
+#[derive(Clone, Copy, Debug, PartialEq, Eq, PartialOrd, Ord, Hash)]
+pub enum Dst {
+    N1,
+    N2,
+    N3,
+    /// off-link, covered by the default route only
+    R1,
+    /// off-link, covered by the default route and by the (expiring) specific route via G2
+    R2,
+}
+
+#[derive(Clone, Copy, Debug, PartialEq, Eq, PartialOrd, Ord, Hash)]
+pub enum AddrState {
+    Base,
+    SameNet,
+    OtherNet,
+}
+
+fn v4(a: u8, b: u8, c: u8, d: u8) -> Ip {
+    Ip::V4([a, b, c, d])
+}
+fn v6(s: [u16; 8]) -> Ip {
+    let mut b = [0u8; 16];
+    for i in 0..8 {
+        b[2 * i..2 * i + 2].copy_from_slice(&s[i].to_be_bytes());
+    }
+    Ip::V6(b)
+}
+fn smol(ip: &Ip) -> IpAddress {
+    match ip {
+        Ip::V4(b) => IpAddress::Ipv4(Ipv4Address::new(b[0], b[1], b[2], b[3])),
+        Ip::V6(b) => IpAddress::Ipv6(Ipv6Address::from(*b)),
+    }
+}
+
+fn node_code(n: Node) -> u8 {
+    match n {
+        Node::N1 => 0x11,
+        Node::N2 => 0x12,
+        Node::N3 => 0x13,
+        Node::G1 => 0xa1,
+        Node::G2 => 0xa2,
+    }
+}
+
+fn our_hw(med: Med) -> Vec<u8> {
+    if med.is_eth() {
+        vec![2, 0, 0, 0, 0, 1]
+    } else {
+        vec![2, 0, 0, 0, 0, 0, 0, 1]
+    }
+}
+/// which: 0 = the node's true address, 1 = alternative address (node moved / claims another)
+fn node_hw(med: Med, n: Node, which: u8) -> Vec<u8> {
+    if med.is_eth() {
+        vec![2, 0, 0, 0, 1 + which, node_code(n)]
+    } else {
+        vec![2, 0, 0, 0, 0, 0, 1 + which, node_code(n)]
+    }
+}
+fn spoof_hw(med: Med) -> Vec<u8> {
+    if med.is_eth() {
+        vec![2, 0, 0, 0, 0, 0xee]
+    } else {
+        vec![2, 0, 0, 0, 0, 0, 0, 0xee]
+    }
+}
+fn node_ip(med: Med, n: Node) -> Ip {
+    let c = node_code(n) as u16;
+    match med {
+        Med::EthV4 => match n {
+            Node::N1 => v4(192, 168, 1, 11),
+            Node::N2 => v4(192, 168, 1, 12),
+            Node::N3 => v4(192, 168, 1, 13),
+            Node::G1 => v4(192, 168, 1, 101),
+            Node::G2 => v4(192, 168, 1, 102),
+        },
+        Med::EthV6 => match n {
+            Node::N3 | Node::G1 => v6([0xfe80, 0, 0, 0, 0, 0, 0, c]),
+            _ => v6([0x2001, 0xdb8, 0, 0, 0, 0, 0, c]),
+        },
+        // N1, N2, G1: link-local with the IID derived from the node's true EUI-64 (so that
+        // 6LoWPAN elides it); N3, G2 global
+        Med::LowV6 => match n {
+            Node::N1 | Node::N2 | Node::G1 => v6([0xfe80, 0, 0, 0, 0, 0, 0, 0x0100 | c]),
+            _ => v6([0x2001, 0xdb8, 0, 0, 0, 0, 0, c]),
+        },
+    }
+}
+fn dst_ip(med: Med, d: Dst) -> Ip {
+    match d {
+        Dst::N1 => node_ip(med, Node::N1),
+        Dst::N2 => node_ip(med, Node::N2),
+        Dst::N3 => node_ip(med, Node::N3),
+        Dst::R1 => {
+            if med.is_v4() {
+                v4(10, 0, 0, 7)
+            } else {
+                v6([0x2001, 0xdb8, 1, 0, 0, 0, 0, 7])
+            }
+        }
+        Dst::R2 => {
+            if med.is_v4() {
+                v4(10, 1, 0, 7)
+            } else {
+                v6([0x2001, 0xdb8, 2, 0, 0, 0, 0, 7])
+            }
+        }
+    }
+}
+fn specific_route(med: Med) -> (Ip, u8) {
+    if med.is_v4() {
+        (v4(10, 1, 0, 0), 16)
+    } else {
+        (v6([0x2001, 0xdb8, 2, 0, 0, 0, 0, 0]), 48)
+    }
+}
+fn default_net(med: Med) -> (Ip, u8) {
+    if med.is_v4() {
+        (v4(0, 0, 0, 0), 0)
+    } else {
+        (v6([0; 8]), 0)
+    }
+}
+fn our_addrs(med: Med, st: AddrState) -> Vec<(Ip, u8)> {
+    if med.is_v4() {
+        vec![match st {
+            AddrState::Base => (v4(192, 168, 1, 1), 24),
+            AddrState::SameNet => (v4(192, 168, 1, 2), 24),
+            AddrState::OtherNet => (v4(192, 168, 2, 1), 24),
+        }]
+    } else {
+        vec![
+            (v6([0xfe80, 0, 0, 0, 0, 0, 0, 1]), 64),
+            match st {
+                AddrState::Base => (v6([0x2001, 0xdb8, 0, 0, 0, 0, 0, 1]), 64),
+                AddrState::SameNet => (v6([0x2001, 0xdb8, 0, 0, 0, 0, 0, 2]), 64),
+                AddrState::OtherNet => (v6([0x2001, 0xdb8, 9, 0, 0, 0, 0, 1]), 64),
+            },
+        ]
+    }
+}
+
+// ---------------------------------------------------------------------------------------
+// events
+// ---------------------------------------------------------------------------------------
+
+#[derive(Clone, Copy, Debug, PartialEq, Eq, PartialOrd, Ord, Hash)]
+pub enum DiscKind {
+    /// ARP reply / NA(S|O) with the node's true address, addressed to us
+    Reply,
+    /// same, but asserting the node's alternative address
+    ReplyAlt,
+    /// ARP request for our address / NS for our address with source link-layer option (true address)
+    Request,
+    /// NS for our address whose source link-layer option carries the alternative address
+    RequestAlt,
+    /// gratuitous ARP request (sender = target = node, broadcast), alternative address;
+    /// for IPv6: unsolicited NA(O) to ff02::1, true address
+    Announce,
+    /// NA with only the Solicited flag (no Override) asserting the alternative address
+    NaNoOverride,
+    /// reply whose PROTOCOL source is the off-link host R1 (spoofed), hardware address of the spoofer
+    OffLink,
+    /// reply asserting the broadcast hardware address (802.15.4: short address 0xffff)
+    BcastHw,
+    /// reply asserting a multicast hardware address
+    McastHw,
+}
+
+#[derive(Clone, Copy, Debug, PartialEq, Eq, PartialOrd, Ord, Hash)]
+pub enum TrafKind {
+    /// echo request: we answer with a unicast echo reply
+    EchoReq,
+    /// echo reply from the node (silently ignored by the stack): pure "traffic from the neighbor"
+    Quiet,
+    /// the same from the node's alternative hardware address
+    QuietAlt,
+    /// UDP datagram to socket 0
+    Udp,
+}
+
+#[derive(Clone, Copy, Debug, PartialEq, Eq, PartialOrd, Ord, Hash)]
+pub enum RouteOp {
+    /// add (or renew) the specific route towards R2 via G2, expiring 60 s from now
+    AddSpecific,
+    /// default route: via G1 -> via G2 -> none -> via G1 ...
+    CycleDefault,
+}
+
+#[derive(Clone, Copy, Debug, PartialEq, Eq, PartialOrd, Ord, Hash)]
+pub enum Ev {
+    Send { sock: u8, dst: Dst },
+    Disc { from: Node, kind: DiscKind },
+    Traffic { from: Node, kind: TrafKind },
+    Route(RouteOp),
+    /// cycle own addresses Base -> SameNet -> Base (false) or Base -> OtherNet -> Base (true)
+    Addr { other_net: bool },
+    /// advance the clock by this many milliseconds
+    Advance(u32),
+    /// Interface::poll at the current time
+    Poll,
+    /// cooperative environment: poll, answer every discovery request on the wire with the
+    /// target's true address, poll again, advance 1 s; repeated until nothing is queued or 8 rounds
+    Drain,
+}
+
+impl Ev {
+    fn kind(&self) -> String {
+        match self {
+            Ev::Send { .. } => "send".into(),
+            Ev::Disc { kind, .. } => format!("disc-{:?}", kind),
+            Ev::Traffic { kind, .. } => format!("traffic-{:?}", kind),
+            Ev::Route(r) => format!("route-{:?}", r),
+            Ev::Addr { other_net } => format!("addr-{}", if *other_net { "othernet" } else { "samenet" }),
+            Ev::Advance(ms) => format!("advance-{}ms", ms),
+            Ev::Poll => "poll".into(),
+            Ev::Drain => "drain".into(),
+        }
+    }
+}
+
+#[derive(Clone, Debug)]
+pub struct NeighCfg {
+    pub label: String,
+    pub med: Med,
+    /// number of UDP sockets (socket k is bound to port 5000+k)
+    pub n_socks: usize,
+    /// one more socket, index `n_socks`: an ICMP socket sending echo requests
+    pub icmp: bool,
+    /// socket 0 sends datagrams that need three or more link-layer fragments (Ethernet: the
+    /// device MTU is lowered to 114 octets; 802.15.4: 6LoWPAN fragmentation)
+    pub big: bool,
+    /// every event other than Poll/Drain is followed by Interface::poll
+    pub autopoll: bool,
+    pub alphabet: Arc<Vec<Ev>>,
+    /// smoltcp::config::IFACE_NEIGHBOR_CACHE_COUNT of this build
+    pub cache_slots: usize,
+    pub verbose: bool,
+}
+
+// ---------------------------------------------------------------------------------------
+// reference model
+// ---------------------------------------------------------------------------------------
+
+#[derive(Clone, Debug, PartialEq, Eq, Hash)]
+struct Cand {
+    hw: Vec<u8>,
+    last: i64,
+}
+#[derive(Clone, Debug)]
+struct RouteM {
+    net: Ip,
+    plen: u8,
+    via: Ip,
+    expires: Option<i64>,
+}
+
+#[derive(Default)]
+struct Model {
+    addrs: Vec<(Ip, u8)>,
+    routes: Vec<RouteM>,
+    table: BTreeMap<Ip, Vec<Cand>>,
+    queues: Vec<VecDeque<Ip>>,
+    last_req: BTreeMap<Ip, i64>,
+    last_req_any: Option<i64>,
+    // diagnostics only (choose the cause in a signature; never make something acceptable)
+    rejected: Vec<(Ip, Vec<u8>, &'static str)>,
+    replaced: Vec<(Ip, Vec<u8>)>,
+}
+
+enum Effect {
+    Definite(Ip, Vec<u8>),
+    Optional(Ip, Vec<u8>),
+    Rejected(Ip, Vec<u8>, &'static str),
+}
+
+impl Model {
+    fn on_link(&self, d: &Ip) -> bool {
+        self.addrs.iter().any(|(n, p)| prefix_contains(n, *p, d))
+    }
+    fn is_subnet_broadcast(&self, d: &Ip) -> bool {
+        if let Ip::V4(x) = d {
+            for (a, p) in &self.addrs {
+                if let Ip::V4(n) = a {
+                    if *p < 31 {
+                        let mask = if *p == 0 { 0 } else { u32::MAX << (32 - *p as u32) };
+                        let b = (u32::from_be_bytes(*n) & mask) | !mask;
+                        if u32::from_be_bytes(*x) == b {
+                            return true;
+                        }
+                    }
+                }
+            }
+        }
+        false
+    }
+    fn best(&self, d: &Ip, t: i64, lenient: bool) -> Vec<Ip> {
+        let mut best_len: i32 = -1;
+        let mut v: Vec<Ip> = vec![];
+        for r in &self.routes {
+            let alive = match r.expires {
+                None => true,
+                Some(e) => {
+                    if lenient {
+                        t <= e
+                    } else {
+                        t < e
+                    }
+                }
+            };
+            if alive && prefix_contains(&r.net, r.plen, d) {
+                if (r.plen as i32) > best_len {
+                    best_len = r.plen as i32;
+                    v = vec![r.via.clone()];
+                } else if r.plen as i32 == best_len && !v.contains(&r.via) {
+                    v.push(r.via.clone());
+                }
+            }
+        }
+        v
+    }
+    /// acceptable next hops of a unicast destination at time t (more than one only at the
+    /// lenient boundaries described in the module comment)
+    fn next_hops(&self, d: &Ip, t: i64) -> Vec<Ip> {
+        if self.on_link(d) {
+            return vec![d.clone()];
+        }
+        let mut v = self.best(d, t, false);
+        for x in self.best(d, t, true) {
+            if !v.contains(&x) {
+                v.push(x);
+            }
+        }
+        v
+    }
+    fn fresh(&self, ip: &Ip, hw: &[u8], t: i64) -> bool {
+        self.table.get(ip).map_or(false, |c| c.iter().any(|c| c.hw == hw && t - c.last < LIFETIME))
+    }
+    fn any_fresh(&self, ip: &Ip, t: i64) -> bool {
+        self.table.get(ip).map_or(false, |c| c.iter().any(|c| t - c.last < LIFETIME))
+    }
+    fn confirm(&mut self, ip: &Ip, hw: &[u8], t: i64) -> bool {
+        let mut hit = false;
+        if let Some(c) = self.table.get_mut(ip) {
+            for c in c.iter_mut() {
+                if c.hw == hw {
+                    c.last = t;
+                    hit = true;
+                }
+            }
+        }
+        hit
+    }
+    fn apply(&mut self, e: Effect, t: i64) {
+        match e {
+            Effect::Definite(ip, hw) => {
+                let old = self.table.insert(ip.clone(), vec![Cand { hw: hw.clone(), last: t }]);
+                for o in old.unwrap_or_default() {
+                    if o.hw != hw && !self.replaced.contains(&(ip.clone(), o.hw.clone())) {
+                        self.replaced.push((ip.clone(), o.hw));
+                    }
+                }
+                self.replaced.retain(|(i, h)| !(i == &ip && h == &hw));
+            }
+            Effect::Optional(ip, hw) => {
+                let c = self.table.entry(ip).or_default();
+                match c.iter_mut().find(|c| c.hw == hw) {
+                    Some(c) => c.last = t,
+                    None => c.push(Cand { hw, last: t }),
+                }
+            }
+            Effect::Rejected(ip, hw, why) => {
+                if !self.rejected.iter().any(|(i, h, _)| i == &ip && h == &hw) {
+                    self.rejected.push((ip, hw, why));
+                }
+            }
+        }
+    }
+}
+
+// ---------------------------------------------------------------------------------------
+// statistics (evidence only; summed over every harness execution including BFS replays)
+// ---------------------------------------------------------------------------------------
+
+#[derive(Default, Clone)]
+struct Stats {
+    n: BTreeMap<String, u64>,
+    outcomes: BTreeMap<String, u64>,
+    min_gap_any: Option<i64>,
+    min_gap_same: Option<i64>,
+}
+impl Stats {
+    fn inc(&mut self, k: &str) {
+        *self.n.entry(k.to_string()).or_insert(0) += 1;
+    }
+    fn merge(&mut self, o: &Stats) {
+        for (k, v) in &o.n {
+            *self.n.entry(k.clone()).or_insert(0) += v;
+        }
+        for (k, v) in &o.outcomes {
+            *self.outcomes.entry(k.clone()).or_insert(0) += v;
+        }
+        let m = |a: Option<i64>, b: Option<i64>| match (a, b) {
+            (Some(a), Some(b)) => Some(a.min(b)),
+            (a, None) => a,
+            (None, b) => b,
+        };
+        self.min_gap_any = m(self.min_gap_any, o.min_gap_any);
+        self.min_gap_same = m(self.min_gap_same, o.min_gap_same);
+    }
+}
+/// per configuration label
+static GLOBAL: Mutex<BTreeMap<String, Stats>> = Mutex::new(BTreeMap::new());
+
+// ---------------------------------------------------------------------------------------
+// harness
+// ---------------------------------------------------------------------------------------
+
+pub struct NeighH {
+    cfg: NeighCfg,
+    med: Med,
+    now: i64,
+    iface: Interface,
+    dev: SimDevice,
+    sockets: SocketSet<'static>,
+    handles: Vec<SocketHandle>,
+    m: Model,
+    addr_state: AddrState,
+    default_state: u8, // 0 = via G1, 1 = via G2, 2 = none
+    stats: Stats,
+    emitted: Vec<&'static str>,
+    log: Vec<String>,
+    /// anything the oracles said about the start-up frames (reported with the first event)
+    pending: Vec<Viol>,
+    /// 6LoWPAN: tag and IP destination of the datagram whose fragments are being sent
+    frag_dst: Option<(u16, Ip)>,
+}
+
+impl Drop for NeighH {
+    fn drop(&mut self) {
+        if let Ok(mut g) = GLOBAL.lock() {
+            g.entry(self.cfg.label.clone()).or_default().merge(&self.stats);
+        }
+    }
+}
+
+fn l4_show(l4: &L4) -> String {
+    match l4 {
+        L4::Udp { sport, dport } => format!("UDP {}->{}", sport, dport),
+        L4::Icmp { ty, target: Some(t) } => format!("ICMP type {} target {}", ty, t.show()),
+        L4::Icmp { ty, target: None } => format!("ICMP type {}", ty),
+        L4::Frag => "later fragment".into(),
+        L4::Other(p) => format!("protocol {}", p),
+    }
+}
+
+fn strip_num(s: &mut String, key: &str) {
+    if let Some(i) = s.find(key) {
+        let start = i + key.len();
+        let end = s[start..].find(|c: char| !c.is_ascii_digit()).map_or(s.len(), |e| start + e);
+        s.replace_range(start..end, "_");
+    }
+}
+
+/// Replace every `Instant { micros: N }` by a time-translation invariant token: future and
+/// present instants by their distance to `now`, past instants by their dense rank among all
+/// past instants of the image (the code only ever compares instants with `now` and — for the
+/// eviction victim — with each other, so order is all that matters for past ones).
+fn normalise_times(s: &str, now: i64) -> String {
+    const KEY: &str = "Instant { micros: ";
+    let mut vals: Vec<(usize, usize, i64)> = vec![];
+    let mut pos = 0;
+    while let Some(i) = s[pos..].find(KEY) {
+        let start = pos + i + KEY.len();
+        let end = s[start..].find(' ').map_or(s.len(), |e| start + e);
+        let v: i64 = s[start..end].parse().unwrap_or(i64::MIN);
+        vals.push((start, end, v));
+        pos = end;
+    }
+    let mut past: Vec<i64> = vals.iter().map(|v| v.2).filter(|&v| v < now).collect();
+    past.sort();
+    past.dedup();
+    let mut out = String::with_capacity(s.len());
+    let mut last = 0;
+    for (a, b, v) in vals {
+        out.push_str(&s[last..a]);
+        if v < now {
+            out.push_str(&format!("P{}", past.binary_search(&v).unwrap()));
+        } else {
+            out.push_str(&format!("+{}", v - now));
+        }
+        last = b;
+    }
+    out.push_str(&s[last..]);
+    out
+}
+
+impl NeighH {
+    fn n_queues(&self) -> usize {
+        self.cfg.n_socks + self.cfg.icmp as usize
+    }
+    /// (octets the real socket reports as queued, octets per datagram)
+    fn real_queue(&self, k: usize) -> (usize, usize) {
+        if k < self.cfg.n_socks {
+            let per = if k == 0 && self.cfg.big { big_len(self.med) } else { 1 };
+            (self.sockets.get::<udp::Socket>(self.handles[k]).send_queue(), per)
+        } else {
+            (self.sockets.get::<icmp::Socket>(self.handles[k]).send_queue(), ICMP_LEN)
+        }
+    }
+    /// a datagram of socket k was seen on the wire
+    fn transmitted(&mut self, k: usize, dst: &Ip, out: &mut Vec<Viol>) {
+        match self.m.queues[k].front() {
+            Some(h) if h == dst => {
+                self.m.queues[k].pop_front();
+                self.stats.inc("socket_datagrams_transmitted");
+            }
+            head => {
+                let head = head.map(|h| h.show());
+                self.viol(
+                    out,
+                    "queue",
+                    "unexpected-datagram",
+                    format!("socket {} transmitted a datagram to {} but the oldest accepted, untransmitted datagram is {:?} (duplicate or reordered)", k, dst.show(), head),
+                );
+            }
+        }
+    }
+    fn ts(&self) -> Instant {
+        Instant::from_micros(self.now)
+    }
+    fn note(&mut self, s: String) {
+        if self.cfg.verbose {
+            self.log.push(s);
+        }
+    }
+    fn viol(&mut self, out: &mut Vec<Viol>, clause: &str, cause: &str, detail: String) {
+        let sig = format!("C16/{}/{}/{}", clause, self.med.name(), cause);
+        self.note(format!("      VIOLATION {} :: {}", sig, detail));
+        out.push(Viol::new(sig, format!("t={:.3}s: {}", (self.now - T0) as f64 / 1e6, detail)));
+    }
+    fn machinery(&mut self, out: &mut Vec<Viol>, what: &str, detail: String) {
+        self.note(format!("      MACHINERY {} :: {}", what, detail));
+        out.push(Viol::new(format!("MACHINERY/{}", what), detail));
+    }
+
+    fn set_real_addrs(&mut self) {
+        let addrs = self.m.addrs.clone();
+        self.iface.update_ip_addrs(|a| {
+            a.clear();
+            for (ip, p) in &addrs {
+                a.push(IpCidr::new(smol(ip), *p)).expect("IFACE_MAX_ADDR_COUNT too small for the harness");
+            }
+        });
+    }
+
+    /// our address a peer with this address would talk to
+    fn our_addr_for(&self, peer: &Ip) -> Ip {
+        match peer {
+            Ip::V4(_) => self.m.addrs[0].0.clone(),
+            Ip::V6(b) => {
+                if b[0] == 0xfe && b[1] == 0x80 {
+                    self.m.addrs[0].0.clone()
+                } else {
+                    self.m.addrs[1].0.clone()
+                }
+            }
+        }
+    }
+
+    /// link-layer encapsulation of an IP packet from a neighbor to us
+    fn wrap_ip(&self, ll_dst: &[u8], ll_src: &[u8], src: &Ip, dst: &Ip, proto: u8, hop: u8, payload: &[u8]) -> Vec<u8> {
+        match self.med {
+            Med::EthV4 => stim::eth(ll_dst, ll_src, 0x0800, &stim::ipv4(src, dst, proto, hop, payload)),
+            Med::EthV6 => stim::eth(ll_dst, ll_src, 0x86dd, &stim::ipv6(src, dst, proto, hop, payload)),
+            Med::LowV6 => stim::lowpan(PAN, ll_dst, ll_src, 7, src, dst, proto, hop, payload),
+        }
+    }
+
+    /// Build a discovery message and say what the reference model learns from it.
+    fn build_disc(&self, from: Node, kind: DiscKind) -> Option<(Vec<u8>, Effect, Option<(Ip, Vec<u8>)>)> {
+        let med = self.med;
+        let ip = node_ip(med, from);
+        let tru = node_hw(med, from, 0);
+        let alt = node_hw(med, from, 1);
+        let me = our_hw(med);
+        let on_link = self.m.on_link(&ip);
+        let eligible = |ip: Ip, hw: Vec<u8>, on_link: bool| {
+            if on_link {
+                Effect::Definite(ip, hw)
+            } else {
+                Effect::Rejected(ip, hw, "offlink")
+            }
+        };
+        if med.is_v4() {
+            let mine = self.m.addrs[0].0.clone();
+            let bc = vec![0xffu8; 6];
+            let r = match kind {
+                DiscKind::Reply => (stim::eth(&me, &tru, 0x0806, &stim::arp(2, &tru, &ip, &me, &mine)), eligible(ip, tru, on_link)),
+                DiscKind::ReplyAlt => (stim::eth(&me, &alt, 0x0806, &stim::arp(2, &alt, &ip, &me, &mine)), eligible(ip, alt, on_link)),
+                DiscKind::Request => (stim::eth(&bc, &tru, 0x0806, &stim::arp(1, &tru, &ip, &[0; 6], &mine)), eligible(ip, tru, on_link)),
+                DiscKind::RequestAlt => (stim::eth(&bc, &alt, 0x0806, &stim::arp(1, &alt, &ip, &[0; 6], &mine)), eligible(ip, alt, on_link)),
+                DiscKind::Announce => {
+                    // RFC 5227 announcement: lenient — a cache may or may not take it
+                    let e = if on_link { Effect::Optional(ip.clone(), alt.clone()) } else { Effect::Rejected(ip.clone(), alt.clone(), "offlink") };
+                    (stim::eth(&bc, &alt, 0x0806, &stim::arp(1, &alt, &ip, &[0; 6], &ip)), e)
+                }
+                DiscKind::OffLink => {
+                    let r1 = dst_ip(med, Dst::R1);
+                    let x = spoof_hw(med);
+                    let e = if self.m.on_link(&r1) { Effect::Definite(r1.clone(), x.clone()) } else { Effect::Rejected(r1.clone(), x.clone(), "offlink") };
+                    (stim::eth(&me, &x, 0x0806, &stim::arp(2, &x, &r1, &me, &mine)), e)
+                }
+                DiscKind::BcastHw => (stim::eth(&me, &tru, 0x0806, &stim::arp(2, &bc, &ip, &me, &mine)), Effect::Rejected(ip, bc.clone(), "nonunicast")),
+                DiscKind::McastHw => {
+                    let mc = vec![0x01, 0x00, 0x5e, 0x00, 0x00, 0x01];
+                    (stim::eth(&me, &tru, 0x0806, &stim::arp(2, &mc, &ip, &me, &mine)), Effect::Rejected(ip, mc, "nonunicast"))
+                }
+                DiscKind::NaNoOverride => return None,
+            };
+            return Some((r.0, r.1, None));
+        }
+        // NDISC. `traffic` = (IP source, link-layer source) when the packet is addressed to one
+        // of our unicast addresses (then it also counts as traffic from that neighbor).
+        let mine = self.our_addr_for(&ip);
+        let all_nodes = v6([0xff02, 0, 0, 0, 0, 0, 0, 1]);
+        let ll_mcast = |a: &Ip| if med.is_eth() { stim::eth_mcast_for(a) } else { vec![0xff, 0xff] };
+        let na_uni = |ll_src: &[u8], src: &Ip, flags: u8, tlla: &[u8]| -> Vec<u8> {
+            let dst = self.our_addr_for(src);
+            self.wrap_ip(&me, ll_src, src, &dst, 58, 255, &stim::na(src, &dst, flags, src, Some(tlla)))
+        };
+        let r: (Vec<u8>, Effect, Option<(Ip, Vec<u8>)>) = match kind {
+            DiscKind::Reply => (na_uni(&tru, &ip, 0x60, &tru), eligible(ip.clone(), tru.clone(), on_link), Some((ip, tru))),
+            DiscKind::ReplyAlt => (na_uni(&alt, &ip, 0x60, &alt), eligible(ip.clone(), alt.clone(), on_link), Some((ip, alt))),
+            DiscKind::NaNoOverride => {
+                let e = if on_link { Effect::Optional(ip.clone(), alt.clone()) } else { Effect::Rejected(ip.clone(), alt.clone(), "offlink") };
+                (na_uni(&alt, &ip, 0x40, &alt), e, Some((ip, alt)))
+            }
+            DiscKind::Announce => {
+                let f = self.wrap_ip(&ll_mcast(&all_nodes), &tru, &ip, &all_nodes, 58, 255, &stim::na(&ip, &all_nodes, 0x20, &ip, Some(&tru)));
+                (f, eligible(ip, tru, on_link), None)
+            }
+            DiscKind::Request | DiscKind::RequestAlt => {
+                let hw = if kind == DiscKind::Request { tru } else { alt };
+                let sn = stim::solicited_node(&mine);
+                let f = self.wrap_ip(&ll_mcast(&sn), &hw, &ip, &sn, 58, 255, &stim::ns(&ip, &sn, &mine, Some(&hw)));
+                (f, eligible(ip, hw, on_link), None)
+            }
+            DiscKind::OffLink => {
+                let r1 = dst_ip(med, Dst::R1);
+                let x = spoof_hw(med);
+                let e = if self.m.on_link(&r1) { Effect::Definite(r1.clone(), x.clone()) } else { Effect::Rejected(r1.clone(), x.clone(), "offlink") };
+                (na_uni(&x, &r1, 0x60, &x), e, Some((r1, x)))
+            }
+            DiscKind::BcastHw => {
+                let bad: Vec<u8> = if med.is_eth() { vec![0xff; 6] } else { vec![0xff, 0xff] };
+                (na_uni(&tru, &ip, 0x60, &bad), Effect::Rejected(ip.clone(), bad, "nonunicast"), Some((ip, tru)))
+            }
+            DiscKind::McastHw => {
+                if !med.is_eth() {
+                    return None;
+                }
+                let bad = vec![0x33, 0x33, 0, 0, 0, 1];
+                (na_uni(&tru, &ip, 0x60, &bad), Effect::Rejected(ip.clone(), bad, "nonunicast"), Some((ip, tru)))
+            }
+        };
+        Some(r)
+    }
+
+    fn build_traffic(&self, from: Node, kind: TrafKind) -> (Vec<u8>, (Ip, Vec<u8>)) {
+        let med = self.med;
+        let ip = node_ip(med, from);
+        let hw = node_hw(med, from, if kind == TrafKind::QuietAlt { 1 } else { 0 });
+        let me = our_hw(med);
+        let mine = self.our_addr_for(&ip);
+        let (proto, payload) = match kind {
+            TrafKind::Udp => (17, stim::udp(&ip, &mine, 7000, SOCK_PORT, &[0x55])),
+            TrafKind::EchoReq => {
+                if med.is_v4() {
+                    (1, stim::icmp4_echo(8, 1, 1, &[0x55]))
+                } else {
+                    (58, stim::icmp6_echo(&ip, &mine, 128, 1, 1, &[0x55]))
+                }
+            }
+            TrafKind::Quiet | TrafKind::QuietAlt => {
+                if med.is_v4() {
+                    (1, stim::icmp4_echo(0, 1, 1, &[0x55]))
+                } else {
+                    (58, stim::icmp6_echo(&ip, &mine, 129, 1, 1, &[0x55]))
+                }
+            }
+        };
+        (self.wrap_ip(&me, &hw, &ip, &mine, proto, 64, &payload), (ip, hw))
+    }
+
+    /// hand one frame to the interface (poll_ingress_single) and judge whatever it answers
+    fn ingress(&mut self, frame: Vec<u8>, out: &mut Vec<Viol>) -> Vec<Ip> {
+        self.dev.rx.push_back(frame);
+        let ts = self.ts();
+        let _ = self.iface.poll_ingress_single(ts, &mut self.dev, &mut self.sockets);
+        if !self.dev.rx.is_empty() {
+            self.machinery(out, "rx-not-consumed", "poll_ingress_single left a frame in the device".into());
+            self.dev.rx.clear();
+        }
+        // keep socket 0's receive buffer empty (its content is irrelevant here)
+        let h = self.handles[0];
+        while self.sockets.get_mut::<udp::Socket>(h).recv().is_ok() {}
+        self.check_tx(out)
+    }
+
+    fn poll(&mut self, out: &mut Vec<Viol>) -> Vec<Ip> {
+        let ts = self.ts();
+        let _ = self.iface.poll(ts, &mut self.dev, &mut self.sockets);
+        self.check_tx(out)
+    }
+
+    /// judge all frames handed to the device since the last call; returns the discovery targets seen
+    fn check_tx(&mut self, out: &mut Vec<Viol>) -> Vec<Ip> {
+        let mut reqs = vec![];
+        for (ts, f) in self.dev.take_tx() {
+            if ts != self.now {
+                self.machinery(out, "tx-timestamp", format!("frame stamped {} at harness time {}", ts, self.now));
+            }
+            self.check_frame(ts, &f, out, &mut reqs);
+        }
+        reqs
+    }
+
+    fn discovery(&mut self, target: Ip, t: i64, out: &mut Vec<Viol>, reqs: &mut Vec<Ip>) {
+        self.stats.inc("discovery_requests");
+        self.emitted.push("discovery");
+        if self.m.any_fresh(&target, t) {
+            // the model still holds a fresh address: the code lost it (eviction / flush)
+            self.stats.inc("rediscovery_while_model_fresh(eviction-or-flush)");
+        }
+        if let Some(prev) = self.m.last_req_any {
+            let gap = t - prev;
+            self.stats.min_gap_any = Some(self.stats.min_gap_any.map_or(gap, |g| g.min(gap)));
+        }
+        if let Some(&prev) = self.m.last_req.get(&target) {
+            let gap = t - prev;
+            self.stats.min_gap_same = Some(self.stats.min_gap_same.map_or(gap, |g| g.min(gap)));
+            if gap < MIN_GAP {
+                self.viol(
+                    out,
+                    "rate",
+                    "same-target-under-1s",
+                    format!("two discovery requests for {} only {} us apart", target.show(), gap),
+                );
+            }
+        }
+        self.m.last_req.insert(target.clone(), t);
+        self.m.last_req_any = Some(t);
+        reqs.push(target);
+    }
+
+    fn check_frame(&mut self, t: i64, f: &[u8], out: &mut Vec<Viol>, reqs: &mut Vec<Ip>) {
+        self.stats.inc("frames_emitted");
+        let parsed = if self.med.is_eth() { parse_ethernet(f) } else { parse_ieee802154(f) };
+        let p = match parsed {
+            Ok(p) => p,
+            Err(e) => {
+                self.machinery(out, "unparsable-frame", format!("{}: {}", e, hex(f)));
+                return;
+            }
+        };
+        if self.cfg.verbose {
+            let d = match &p.body {
+                Body::Arp { op, spa, tpa, .. } => format!("ARP op={} spa={} tpa={}", op, spa.show(), tpa.show()),
+                Body::Ip { src, dst, l4, .. } => format!("IP {} -> {} {}", src.show(), dst.show(), l4_show(l4)),
+                Body::LowpanFragN { tag } => format!("6LoWPAN FRAGN tag={}", tag),
+                Body::Other(s) => s.clone(),
+            };
+            let d = match p.frag1_tag {
+                Some(t) => format!("{} [6LoWPAN FRAG1 tag={}]", d, t),
+                None => d,
+            };
+            self.note(format!("      tx -> {} : {}", hw_show(&p.dst_hw), d));
+        }
+        if p.src_hw != our_hw(self.med) {
+            self.machinery(out, "foreign-source-hwaddr", hex(f));
+        }
+        if let (Some(tag), Body::Ip { dst, .. }) = (p.frag1_tag, &p.body) {
+            self.frag_dst = Some((tag, dst.clone()));
+        }
+        match p.body.clone() {
+            Body::LowpanFragN { tag } => match self.frag_dst.clone() {
+                Some((t0, dst)) if t0 == tag => {
+                    self.emitted.push("fragment");
+                    self.check_unicast(&dst, &p.dst_hw, t, &L4::Frag, out);
+                }
+                other => self.machinery(out, "fragn-unknown-tag", format!("FRAGN tag {} but first fragment seen was {:?}", tag, other)),
+            },
+            Body::Arp { op: 1, tpa, .. } => self.discovery(tpa, t, out, reqs),
+            Body::Arp { .. } => {
+                self.stats.inc("arp_replies_emitted");
+                self.emitted.push("arp-reply");
+            }
+            Body::Ip { src: _, dst, l4, .. } => {
+                let group = dst.is_multicast() || dst.is_limited_broadcast() || self.m.is_subnet_broadcast(&dst);
+                if group {
+                    if let L4::Icmp { ty: 135, target: Some(target) } = l4 {
+                        self.discovery(target, t, out, reqs);
+                    } else {
+                        self.stats.inc("multicast_ip_frames_ignored");
+                        self.emitted.push("mcast");
+                    }
+                    return;
+                }
+                self.check_unicast(&dst, &p.dst_hw, t, &l4, out);
+                match l4 {
+                    L4::Udp { sport, .. } if sport >= SOCK_PORT && ((sport - SOCK_PORT) as usize) < self.cfg.n_socks => {
+                        let k = (sport - SOCK_PORT) as usize;
+                        self.emitted.push("udp");
+                        self.transmitted(k, &dst, out);
+                    }
+                    // echo requests are only ever originated by the ICMP socket
+                    L4::Icmp { ty: 8, .. } | L4::Icmp { ty: 128, .. } if self.cfg.icmp => {
+                        self.emitted.push("echo-request");
+                        let k = self.cfg.n_socks;
+                        self.transmitted(k, &dst, out);
+                    }
+                    L4::Icmp { ty: 135, target: Some(target) } => {
+                        // unicast solicitation (reachability probe) still counts for the rate limit
+                        self.discovery(target, t, out, reqs);
+                    }
+                    L4::Icmp { ty, .. } => {
+                        self.emitted.push(if ty == 136 { "na" } else { "icmp" });
+                    }
+                    L4::Frag => self.emitted.push("fragment"),
+                    _ => self.emitted.push("other-ip"),
+                }
+            }
+            Body::Other(s) => {
+                self.machinery(out, "unexpected-frame", format!("{}: {}", s, hex(f)));
+            }
+        }
+    }
+
+    /// clause 1 + 4: unicast IP packet -> hardware address asserted for the next hop, fresh
+    fn check_unicast(&mut self, d: &Ip, hw: &[u8], t: i64, l4: &L4, out: &mut Vec<Viol>) {
+        self.stats.inc("unicast_ip_frames_checked");
+        let hops = self.m.next_hops(d, t);
+        if hops.len() > 1 {
+            self.stats.inc("unicast_checks_with_ambiguous_next_hop");
+        }
+        if hops.iter().any(|nh| self.m.fresh(nh, hw, t)) {
+            if !self.m.on_link(d) {
+                self.stats.inc("unicast_frames_via_gateway");
+            }
+            if let Some(nh) = hops.first() {
+                if self.m.table.get(nh).map_or(0, |c| c.len()) > 1 {
+                    self.stats.inc("unicast_checks_with_optional_candidates");
+                }
+            }
+            return;
+        }
+        let what = format!("unicast IP packet ({}) to {} sent to hardware address {}", l4_show(l4), d.show(), hw_show(hw));
+        // a fragment other than the first: the address was looked up when the FIRST fragment was
+        // sent; keep these apart from lookups that go wrong
+        let sfx = if *l4 == L4::Frag { "-later-fragment" } else { "" };
+        let tab = |m: &Model, ip: &Ip| -> String {
+            m.table
+                .get(ip)
+                .map(|c| c.iter().map(|c| format!("{}@{:.1}s ago", hw_show(&c.hw), (t - c.last) as f64 / 1e6)).collect::<Vec<_>>().join(","))
+                .unwrap_or_else(|| "nothing".into())
+        };
+        if hops.is_empty() {
+            self.viol(out, "hwaddr", &format!("no-route{}", sfx), format!("{}; the destination is off-link and no unexpired route matches", what));
+            return;
+        }
+        let ctx = format!(
+            "{}; next hop {} for which eligible messages asserted [{}]",
+            what,
+            hops.iter().map(|h| h.show()).collect::<Vec<_>>().join(" or "),
+            hops.iter().map(|h| tab(&self.m, h)).collect::<Vec<_>>().join(" / ")
+        );
+        if hw_is_group(hw) {
+            self.viol(out, "hwaddr", &format!("non-unicast-hwaddr{}", sfx), ctx);
+            return;
+        }
+        for nh in &hops {
+            if self.m.table.get(nh).map_or(false, |c| c.iter().any(|c| c.hw == hw)) {
+                self.viol(out, "expiry", &format!("used-after-60s{}", sfx), ctx);
+                return;
+            }
+        }
+        for nh in &hops {
+            if self.m.replaced.iter().any(|(i, h)| i == nh && h == hw) {
+                self.viol(out, "hwaddr", &format!("replaced-address{}", sfx), ctx);
+                return;
+            }
+            if let Some((_, _, why)) = self.m.rejected.iter().find(|(i, h, _)| i == nh && h == hw) {
+                let why = *why;
+                self.viol(out, "hwaddr", &format!("ineligible-{}{}", why, sfx), ctx);
+                return;
+            }
+        }
+        let owner = self.m.table.iter().find(|(_, c)| c.iter().any(|c| c.hw == hw)).map(|(i, _)| i.clone());
+        if let Some(o) = owner {
+            let cause = if &o == d {
+                "direct-to-offlink-destination"
+            } else if self.m.routes.iter().any(|r| r.via == o) {
+                "other-gateways-address"
+            } else {
+                "other-neighbors-address"
+            };
+            self.viol(out, "hwaddr", &format!("{}{}", cause, sfx), format!("{}; that address was asserted for {}", ctx, o.show()));
+            return;
+        }
+        if self.m.rejected.iter().any(|(_, h, _)| h == hw) {
+            self.viol(out, "hwaddr", &format!("ineligible-senders-address{}", sfx), ctx);
+            return;
+        }
+        self.viol(out, "hwaddr", &format!("never-asserted{}", sfx), ctx);
+    }
+
+    /// clause 2 (safety part): what the sockets still hold == accepted minus transmitted
+    fn check_queues(&mut self, out: &mut Vec<Viol>) {
+        for k in 0..self.n_queues() {
+            let (octets, per) = self.real_queue(k);
+            if octets % per != 0 {
+                self.machinery(out, "queue-octets", format!("socket {} reports {} queued octets, datagrams are {} octets", k, octets, per));
+            }
+            let real = octets / per;
+            let model = self.m.queues[k].len();
+            if real < model {
+                self.viol(
+                    out,
+                    "queue",
+                    "datagram-lost",
+                    format!("socket {} holds {} datagram(s) but {} accepted datagram(s) have not been seen on the wire", k, real, model),
+                );
+                // resynchronise so that one loss is reported once
+                while self.m.queues[k].len() > real {
+                    self.m.queues[k].pop_front();
+                }
+            } else if real > model {
+                self.viol(
+                    out,
+                    "queue",
+                    "datagram-still-queued-after-transmission",
+                    format!("socket {} holds {} datagram(s), model expects {}", k, real, model),
+                );
+            }
+        }
+    }
+
+    fn apply_disc(&mut self, from: Node, kind: DiscKind, out: &mut Vec<Viol>) -> (Vec<Ip>, bool) {
+        let Some((frame, effect, traffic)) = self.build_disc(from, kind) else {
+            return (vec![], false);
+        };
+        let now = self.now;
+        if let Some((ip, hw)) = traffic {
+            if self.m.confirm(&ip, &hw, now) {
+                self.stats.inc("confirmations_by_traffic");
+            }
+        }
+        let definite = matches!(effect, Effect::Definite(..));
+        self.stats.inc(match effect {
+            Effect::Definite(..) => "eligible_assertions",
+            Effect::Optional(..) => "optional_assertions",
+            Effect::Rejected(_, _, "offlink") => "ineligible_offlink",
+            Effect::Rejected(..) => "ineligible_nonunicast",
+        });
+        self.m.apply(effect, now);
+        (self.ingress(frame, out), definite)
+    }
+
+    fn drain(&mut self, out: &mut Vec<Viol>) {
+        let mut rounds = 0;
+        loop {
+            rounds += 1;
+            let mut work: VecDeque<Ip> = self.poll(out).into();
+            let mut guard = 0;
+            while let Some(t) = work.pop_front() {
+                guard += 1;
+                if guard > 16 {
+                    break;
+                }
+                let Some(&node) = NODES.iter().find(|&&n| node_ip(self.med, n) == t) else { continue };
+                let before: Vec<usize> = self.m.queues.iter().map(|q| q.len()).collect();
+                let heads: Vec<Option<Vec<Ip>>> = self.m.queues.iter().map(|q| q.front().map(|d| self.m.next_hops(d, self.now))).collect();
+                let (r1, definite) = self.apply_disc(node, DiscKind::Reply, out);
+                let r2 = self.poll(out);
+                work.extend(r1);
+                work.extend(r2);
+                self.stats.inc("drain_requests_answered");
+                if definite {
+                    for k in 0..self.n_queues() {
+                        if heads[k].as_ref().map_or(false, |h| h.len() == 1 && h[0] == t) {
+                            self.stats.inc("drain_progress_checks");
+                            if self.m.queues[k].len() >= before[k] {
+                                self.viol(
+                                    out,
+                                    "queue",
+                                    "not-sent-after-resolution",
+                                    format!("socket {}: next hop {} of its oldest datagram answered the discovery request and the interface was polled, but the datagram was not transmitted", k, t.show()),
+                                );
+                            }
+                        }
+                    }
+                }
+            }
+            if self.m.queues.iter().all(|q| q.is_empty()) {
+                self.stats.inc("drains_ending_with_everything_transmitted");
+                break;
+            }
+            if rounds >= 8 {
+                self.stats.inc("drains_ending_with_data_still_queued(no route / unanswerable next hop / starved)");
+                break;
+            }
+            self.now += SEC;
+        }
+    }
+}
+
+impl Harness for NeighH {
+    type Cfg = NeighCfg;
+    type Ev = Ev;
+
+    fn new(cfg: &NeighCfg) -> Self {
+        let med = cfg.med;
+        let hw = our_hw(med);
+        let (medium, mtu, hwaddr) = if med.is_eth() {
+            (Medium::Ethernet, 1514, HardwareAddress::Ethernet(EthernetAddress::from_bytes(&hw)))
+        } else {
+            (Medium::Ieee802154, 125, HardwareAddress::Ieee802154(Ieee802154Address::from_bytes(&hw)))
+        };
+        let mtu = if cfg.big && med.is_eth() { BIG_ETH_MTU } else { mtu };
+        let mut dev = SimDevice::new(medium, mtu);
+        let mut config = Config::new(hwaddr);
+        config.random_seed = 1;
+        if !med.is_eth() {
+            config.pan_id = Some(Ieee802154Pan(PAN));
+        }
+        let iface = Interface::new(config, &mut dev, Instant::from_micros(T0));
+        let mut sockets = SocketSet::new(vec![]);
+        let mut handles = vec![];
+        for k in 0..cfg.n_socks {
+            let rx = udp::PacketBuffer::new(vec![udp::PacketMetadata::EMPTY; 2], vec![0u8; 8]);
+            let per = if k == 0 && cfg.big { big_len(med) } else { 1 };
+            let tx = udp::PacketBuffer::new(vec![udp::PacketMetadata::EMPTY; 2], vec![0u8; 2 * per]);
+            let mut s = udp::Socket::new(rx, tx);
+            s.bind(SOCK_PORT + k as u16).expect("bind");
+            handles.push(sockets.add(s));
+        }
+        if cfg.icmp {
+            let rx = icmp::PacketBuffer::new(vec![icmp::PacketMetadata::EMPTY; 1], vec![0u8; 16]);
+            let tx = icmp::PacketBuffer::new(vec![icmp::PacketMetadata::EMPTY; 2], vec![0u8; 2 * ICMP_LEN]);
+            let mut s = icmp::Socket::new(rx, tx);
+            s.bind(icmp::Endpoint::Ident(0x22)).expect("bind");
+            handles.push(sockets.add(s));
+        }
+        let mut h = NeighH {
+            cfg: cfg.clone(),
+            med,
+            now: T0,
+            iface,
+            dev,
+            sockets,
+            handles,
+            m: Model::default(),
+            addr_state: AddrState::Base,
+            default_state: 0,
+            stats: Stats::default(),
+            emitted: vec![],
+            log: vec![],
+            pending: vec![],
+            frag_dst: None,
+        };
+        h.m.queues = vec![VecDeque::new(); cfg.n_socks + cfg.icmp as usize];
+        h.m.addrs = our_addrs(med, AddrState::Base);
+        h.set_real_addrs();
+        let g1 = node_ip(med, Node::G1);
+        match smol(&g1) {
+            IpAddress::Ipv4(a) => {
+                h.iface.routes_mut().add_default_ipv4_route(a).expect("route");
+            }
+            IpAddress::Ipv6(a) => {
+                h.iface.routes_mut().add_default_ipv6_route(a).expect("route");
+            }
+        }
+        let (net, plen) = default_net(med);
+        h.m.routes.push(RouteM { net, plen, via: g1, expires: None });
+        // let start-up chatter (MLD reports for the solicited-node groups) out
+        let mut sink = vec![];
+        for _ in 0..4 {
+            h.poll(&mut sink);
+        }
+        h.emitted.clear();
+        h.stats = Stats::default();
+        h.pending = sink;
+        h
+    }
+
+    fn enabled(&self) -> Vec<(Ev, u32)> {
+        self.cfg.alphabet.iter().map(|e| (*e, 0)).collect()
+    }
+
+    fn apply(&mut self, ev: &Ev, out: &mut Vec<Viol>) {
+        out.append(&mut self.pending);
+        self.emitted.clear();
+        if self.cfg.verbose {
+            let s = format!("t={:8.3}s  {:?}", (self.now - T0) as f64 / 1e6, ev);
+            self.log.push(s);
+        }
+        let med = self.med;
+        match *ev {
+            Ev::Send { sock, dst } => {
+                let d = dst_ip(med, dst);
+                let ep = IpEndpoint::new(smol(&d), PEER_PORT);
+                let h = self.handles[sock as usize];
+                let r = if (sock as usize) < self.cfg.n_socks {
+                    let len = if sock == 0 && self.cfg.big { big_len(med) } else { 1 };
+                    self.sockets.get_mut::<udp::Socket>(h).send_slice(&vec![0x40 + sock; len], ep).is_ok()
+                } else {
+                    // echo request, ident 0x22; the socket recomputes the checksum
+                    let msg = if med.is_v4() { stim::icmp4_echo(8, 0x22, 1, &[0x40]) } else { stim::icmp6_echo(&d, &d, 128, 0x22, 1, &[0x40]) };
+                    debug_assert_eq!(msg.len(), ICMP_LEN);
+                    self.sockets.get_mut::<icmp::Socket>(h).send_slice(&msg, smol(&d)).is_ok()
+                };
+                match if r { Ok(()) } else { Err(()) } {
+                    Ok(()) => {
+                        self.m.queues[sock as usize].push_back(d);
+                        self.stats.inc("sends_accepted");
+                    }
+                    Err(_) => self.stats.inc("sends_refused_buffer_full"),
+                }
+            }
+            Ev::Disc { from, kind } => {
+                self.apply_disc(from, kind, out);
+            }
+            Ev::Traffic { from, kind } => {
+                let (frame, (ip, hw)) = self.build_traffic(from, kind);
+                let now = self.now;
+                if self.m.confirm(&ip, &hw, now) {
+                    self.stats.inc("confirmations_by_traffic");
+                }
+                self.ingress(frame, out);
+            }
+            Ev::Route(RouteOp::AddSpecific) => {
+                let (net, plen) = specific_route(med);
+                let via = node_ip(med, Node::G2);
+                let exp = self.now + ROUTE_LIFETIME;
+                let cidr = IpCidr::new(smol(&net), plen);
+                let route = Route { cidr, via_router: smol(&via), preferred_until: None, expires_at: Some(Instant::from_micros(exp)) };
+                let mut ok = false;
+                self.iface.routes_mut().update(|v| {
+                    v.retain(|r| r.cidr != cidr);
+                    ok = v.push(route).is_ok();
+                });
+                self.m.routes.retain(|r| !(r.net == net && r.plen == plen));
+                if ok {
+                    self.m.routes.push(RouteM { net, plen, via, expires: Some(exp) });
+                    self.stats.inc("routes_added");
+                } else {
+                    self.stats.inc("route_table_full");
+                }
+            }
+            Ev::Route(RouteOp::CycleDefault) => {
+                self.default_state = (self.default_state + 1) % 3;
+                let (net, plen) = default_net(med);
+                self.m.routes.retain(|r| r.plen != 0);
+                let via = match self.default_state {
+                    0 => Some(node_ip(med, Node::G1)),
+                    1 => Some(node_ip(med, Node::G2)),
+                    _ => None,
+                };
+                match &via {
+                    Some(g) => {
+                        let ok = match smol(g) {
+                            IpAddress::Ipv4(a) => self.iface.routes_mut().add_default_ipv4_route(a).is_ok(),
+                            IpAddress::Ipv6(a) => self.iface.routes_mut().add_default_ipv6_route(a).is_ok(),
+                        };
+                        if ok {
+                            self.m.routes.push(RouteM { net, plen, via: g.clone(), expires: None });
+                        } else {
+                            self.stats.inc("route_table_full");
+                        }
+                    }
+                    None => {
+                        if med.is_v4() {
+                            self.iface.routes_mut().remove_default_ipv4_route();
+                        } else {
+                            self.iface.routes_mut().remove_default_ipv6_route();
+                        }
+                    }
+                }
+            }
+            Ev::Addr { other_net } => {
+                self.addr_state = match (self.addr_state, other_net) {
+                    (AddrState::Base, false) => AddrState::SameNet,
+                    (AddrState::Base, true) => AddrState::OtherNet,
+                    _ => AddrState::Base,
+                };
+                self.m.addrs = our_addrs(med, self.addr_state);
+                self.set_real_addrs();
+                self.stats.inc("address_changes");
+            }
+            Ev::Advance(ms) => self.now += ms as i64 * 1000,
+            Ev::Poll => {
+                self.poll(out);
+            }
+            Ev::Drain => self.drain(out),
+        }
+        if self.cfg.autopoll && !matches!(ev, Ev::Poll | Ev::Drain) {
+            self.poll(out);
+        }
+        self.check_queues(out);
+        let mut em = std::mem::take(&mut self.emitted);
+        em.sort();
+        em.dedup();
+        let label = format!("{} -> [{}]", ev.kind(), em.join(","));
+        *self.stats.outcomes.entry(label).or_insert(0) += 1;
+    }
+
+    fn fingerprint(&self) -> u128 {
+        // real state: interface digest + sockets image, made time-translation invariant.
+        // Stripped counters (cannot influence anything this harness observes): `seq` is only
+        // copied into the 802.15.4 sequence-number field, `ipv4_id` only into the IPv4
+        // identification field and `tag` only into 6LoWPAN fragment headers of emitted frames;
+        // smoltcp never reads them back and the oracle ignores those fields (no fragmentation:
+        // all packets here are far below the MTU).
+        let mut d = self.iface.verif_digest();
+        strip_num(&mut d, " seq=");
+        strip_num(&mut d, " ipv4_id=");
+        strip_num(&mut d, " tag=");
+        let real = normalise_times(&format!("{} || {:?}", d, self.sockets), self.now);
+        // model state, also relative to now
+        let mut tab: Vec<(Ip, Vec<(Vec<u8>, i64)>)> = vec![];
+        for (ip, c) in &self.m.table {
+            let mut v: Vec<(Vec<u8>, i64)> = c.iter().map(|c| (c.hw.clone(), (self.now - c.last).min(LIFETIME))).collect();
+            v.sort();
+            tab.push((ip.clone(), v));
+        }
+        let routes: Vec<(Ip, u8, Ip, i64)> = self
+            .m
+            .routes
+            .iter()
+            .map(|r| (r.net.clone(), r.plen, r.via.clone(), r.expires.map_or(i64::MAX, |e| (e - self.now).max(-1))))
+            .collect();
+        let reqs: Vec<(Ip, i64)> = self.m.last_req.iter().filter(|(_, &t)| self.now - t < MIN_GAP).map(|(i, &t)| (i.clone(), self.now - t)).collect();
+        let queues: Vec<Vec<Ip>> = self.m.queues.iter().map(|q| q.iter().cloned().collect()).collect();
+        fp128(&(real, tab, routes, reqs, queues, self.addr_state, self.default_state, &self.frag_dst))
+    }
+
+    fn outcome(&self) -> String {
+        format!("queued={}", self.m.queues.iter().map(|q| q.len()).sum::<usize>())
+    }
+}
+
+// ---------------------------------------------------------------------------------------
+// configurations
+// ---------------------------------------------------------------------------------------
+
+fn send(sock: u8, dst: Dst) -> Ev {
+    Ev::Send { sock, dst }
+}
+fn disc(from: Node, kind: DiscKind) -> Ev {
+    Ev::Disc { from, kind }
+}
+fn traf(from: Node, kind: TrafKind) -> Ev {
+    Ev::Traffic { from, kind }
+}
+
+/// (profile name, sockets, autopoll, alphabet, depth quick, depth thorough)
+fn profiles(med: Med, slots: usize) -> Vec<(&'static str, usize, bool, Vec<Ev>, usize, usize)> {
+    use DiscKind::*;
+    use Dst as D;
+    use Node::*;
+    let v6 = !med.is_v4();
+    let small = slots <= 2;
+    let mut out = vec![];
+    // competition for the rate limit and (small build) for the cache slots: three on-link
+    // neighbors + a gateway for two slots
+    {
+        let mut a = vec![send(0, D::N1), send(0, D::N2), send(1, D::N2), send(1, D::N3), disc(N1, Reply), disc(N2, Reply), disc(N3, Reply), Ev::Advance(500), Ev::Advance(1000), Ev::Poll, Ev::Drain];
+        if small {
+            a.push(send(1, D::R1));
+            a.push(disc(G1, Reply));
+        }
+        out.push(("rate", 2, false, a, 6, 8));
+    }
+    // expiry, refresh by traffic, replacement
+    {
+        let mut a = vec![
+            send(0, D::N1),
+            send(1, D::N2),
+            disc(N1, Reply),
+            disc(N1, ReplyAlt),
+            disc(N2, Reply),
+            traf(N1, TrafKind::Quiet),
+            traf(N1, TrafKind::EchoReq),
+            Ev::Advance(1000),
+            Ev::Advance(59000),
+            Ev::Advance(61000),
+            Ev::Poll,
+        ];
+        if v6 {
+            a.push(disc(N1, NaNoOverride));
+        } else {
+            a.push(traf(N1, TrafKind::QuietAlt));
+        }
+        out.push(("expiry", 2, false, a, 7, 10));
+    }
+    // routing: default route change, expiring specific route, two gateways
+    {
+        let a = vec![
+            send(0, D::R1),
+            send(0, D::R2),
+            send(1, D::R2),
+            send(1, D::N1),
+            disc(G1, Reply),
+            disc(G2, Reply),
+            disc(N1, Reply),
+            Ev::Route(RouteOp::AddSpecific),
+            Ev::Route(RouteOp::CycleDefault),
+            Ev::Advance(1000),
+            Ev::Advance(59000),
+            Ev::Advance(61000),
+            Ev::Poll,
+        ];
+        out.push(("routing", 2, false, a, 6, 7));
+    }
+    // ineligible / unusual assertions
+    {
+        let mut a = vec![
+            send(0, D::N1),
+            send(0, D::R1),
+            disc(N1, Reply),
+            disc(N1, Request),
+            disc(N1, Announce),
+            disc(N1, OffLink),
+            disc(N1, BcastHw),
+            disc(G1, Reply),
+            disc(G1, BcastHw),
+            traf(N1, TrafKind::EchoReq),
+            Ev::Advance(1000),
+            Ev::Poll,
+        ];
+        if med.is_eth() {
+            a.push(disc(N1, McastHw));
+        }
+        a.push(disc(N1, RequestAlt));
+        out.push(("spoof", 1, false, a, 6, 9));
+    }
+    // address changes (cache flush, eligibility follows the current subnets)
+    {
+        let a = vec![
+            send(0, D::N1),
+            send(1, D::R1),
+            disc(N1, Reply),
+            disc(G1, Reply),
+            traf(N1, TrafKind::Udp),
+            Ev::Addr { other_net: false },
+            Ev::Addr { other_net: true },
+            Ev::Advance(1000),
+            Ev::Advance(61000),
+            Ev::Poll,
+            Ev::Drain,
+        ];
+        out.push(("addr", 2, false, a, 7, 9));
+    }
+    // datagrams needing >= 3 link-layer fragments (only one fragment goes out per poll_egress
+    // pass, the rest in later polls). IPv6 over Ethernet has no fragmentation support.
+    if med != Med::EthV6 {
+        let a = vec![send(0, D::N1), send(1, D::N1), disc(N1, Reply), disc(N1, ReplyAlt), Ev::Advance(1000), Ev::Advance(61000), Ev::Poll];
+        out.push(("frag", 2, false, a, 7, 9));
+    }
+    // everything polled after every event: three sockets, deeper in terms of protocol steps
+    {
+        let a = vec![
+            send(0, D::N1),
+            send(1, D::N2),
+            send(2, D::R1),
+            send(2, D::N3),
+            // socket 3 is the ICMP socket (echo request)
+            send(3, D::N1),
+            disc(N1, Reply),
+            disc(N2, Reply),
+            disc(N3, Request),
+            disc(G1, Reply),
+            traf(N2, TrafKind::EchoReq),
+            traf(N3, TrafKind::Udp),
+            Ev::Advance(500),
+            Ev::Advance(1000),
+            Ev::Advance(59000),
+            Ev::Advance(61000),
+            Ev::Drain,
+        ];
+        out.push(("auto", 3, true, a, 5, 6));
+    }
+    out
+}
+
+fn all_cfgs(tier: Tier) -> Vec<(NeighCfg, usize)> {
+    let slots = smoltcp::config::IFACE_NEIGHBOR_CACHE_COUNT;
+    let mut v = vec![];
+    for med in [Med::EthV4, Med::EthV6, Med::LowV6] {
+        for (name, n_socks, autopoll, alphabet, dq, dt) in profiles(med, slots) {
+            let cfg = NeighCfg {
+                label: format!("{}/{}", med.name(), name),
+                med,
+                n_socks,
+                icmp: name == "auto",
+                big: name == "frag",
+                autopoll,
+                alphabet: Arc::new(alphabet),
+                cache_slots: slots,
+                verbose: false,
+            };
+            v.push((cfg, if tier == Tier::Quick { dq } else { dt }));
+        }
+    }
+    v
+}
+
+/// run a list of events directly (samples, demonstrations)
+fn trace(cfg: &NeighCfg, evs: &[Ev]) -> (Vec<String>, Vec<Viol>) {
+    let mut c = cfg.clone();
+    c.verbose = true;
+    let mut h = NeighH::new(&c);
+    let mut out = vec![];
+    for e in evs {
+        h.apply(e, &mut out);
+    }
+    (std::mem::take(&mut h.log), out)
+}
+
+pub fn run(tier: Tier) -> i32 {
+    let mut rep = Report::new("C16", tier);
+    let slots = smoltcp::config::IFACE_NEIGHBOR_CACHE_COUNT;
+    rep.assumptions.push("reference model (own addresses, longest-prefix routes with expiry, table of eligible hardware-address assertions with time of last confirmation, per-socket FIFO of accepted datagrams) and the independent frame parser neigh::parse are trusted".into());
+    rep.assumptions.push("frames from neighbors are processed on arrival with Interface::poll_ingress_single; the Poll event is Interface::poll (maintenance + egress; the device receive queue is empty then). This is the decomposition the Interface::poll documentation itself describes; queued-then-polled arrival orders are therefore covered as consecutive arrival events at the same instant".into());
+    rep.assumptions.push("lenient readings are listed at the top of src/neigh.rs (confirmation = any traffic from the neighbor's IP+hardware address to one of our unicast addresses, resurrection accepted, optional assertions add candidates, route expiry instant counts either way, rate limit judged per target)".into());
+    rep.assumptions.push("fingerprint = verif_digest + sockets Debug image + model, with every Instant rewritten relative to now (past instants by rank) and the counters seq/ipv4_id/tag stripped (they only end up in emitted header fields the oracle ignores)".into());
+    rep.assumptions.push(format!("this build: IFACE_NEIGHBOR_CACHE_COUNT={} IFACE_MAX_ROUTE_COUNT={} IFACE_MAX_ADDR_COUNT={}; eviction is only reachable in the `small` variant (2 slots, up to 5 speakers) — run both variants", slots, smoltcp::config::IFACE_MAX_ROUTE_COUNT, smoltcp::config::IFACE_MAX_ADDR_COUNT));
+    let lim = Limits { max_states: 8_000_000, max_wall_s: 3000.0 };
+    let mut parts = vec![];
+    let mut total = Stats::default();
+    GLOBAL.lock().unwrap().clear();
+    // configurations are independent: explore them concurrently (each BFS is itself parallel
+    // and deterministic), then merge the results in configuration order
+    let cfgs = all_cfgs(tier);
+    let timing = std::env::var("VERIF_NEIGH_TIMING").is_ok();
+    let results: Vec<(Result<crate::core::Stats, String>, Vec<Found>, Vec<serde_json::Value>)> = {
+        use rayon::prelude::*;
+        cfgs.par_iter()
+            .map(|(cfg, depth)| {
+                let t = std::time::Instant::now();
+                let mut found = vec![];
+                let mut samples = vec![];
+                let r = bfs::<NeighH>(&cfg.label, cfg, *depth, &lim, &mut found, &mut samples);
+                if timing {
+                    eprintln!("{} depth {}: {:.1}s {:?}", cfg.label, depth, t.elapsed().as_secs_f64(), r.as_ref().map(|s| s.per_level.clone()));
+                }
+                (r, found, samples)
+            })
+            .collect()
+    };
+    for ((cfg, depth), (r, found, samples)) in cfgs.iter().zip(results) {
+        let depth = *depth;
+        let st = GLOBAL.lock().unwrap().remove(&cfg.label).unwrap_or_default();
+        for f in found {
+            if !rep.found.iter().any(|g| g.viol.sig == f.viol.sig) {
+                rep.found.push(f);
+            }
+        }
+        match r {
+            Ok(s) => {
+                rep.absorb(&format!("{} depth<={}", cfg.label, depth), &s);
+                parts.push(json!({
+                    "config": cfg.label, "depth": depth, "udp_sockets": cfg.n_socks, "icmp_socket": cfg.icmp, "poll_after_every_event": cfg.autopoll,
+                    "alphabet_size": cfg.alphabet.len(),
+                    "alphabet": cfg.alphabet.iter().map(|e| format!("{:?}", e)).collect::<Vec<_>>(),
+                    "states": s.states, "transitions": s.transitions, "exhaustive_to_depth": s.exhaustive, "cap": s.cap_note,
+                    "distinct_outcomes(event kind -> frame classes emitted)": st.outcomes.len(),
+                    "oracle_counters_incl_replays": st.n,
+                    "min_gap_between_any_two_discovery_requests_us": st.min_gap_any,
+                    "min_gap_between_two_requests_for_same_target_us": st.min_gap_same,
+                }));
+                if rep.samples.len() < 3 && cfg.label.ends_with("/rate") {
+                    rep.samples.extend(samples);
+                }
+                total.merge(&st);
+            }
+            Err(e) => rep.machinery_errors.push(format!("{}: {}", cfg.label, e)),
+        }
+    }
+    // machinery problems detected inside the harness are not verdicts
+    let (mach, real): (Vec<Found>, Vec<Found>) = std::mem::take(&mut rep.found).into_iter().partition(|f| f.viol.sig.starts_with("MACHINERY/"));
+    rep.found = real;
+    for f in rep.found.iter_mut() {
+        // panics inside smoltcp caught by the engine: give them a C16 signature
+        if let Some(site) = f.viol.sig.strip_prefix("panic/") {
+            let medium = f.replay["harness"].as_str().unwrap_or("?/").split('/').next().unwrap_or("?").to_string();
+            f.viol.sig = format!("C16/panic/{}/{}", medium, site);
+        }
+    }
+    for m in mach {
+        rep.machinery_errors.push(format!("{}: {} (replay {})", m.viol.sig, m.viol.detail, m.replay));
+    }
+    rep.cov("configurations", json!(parts));
+    rep.cov("outcomes_all_configs", json!(total.outcomes));
+    rep.cov("oracle_counters_all_configs_incl_replays", json!(total.n));
+    rep.cov("min_gap_between_any_two_discovery_requests_us(evidence only)", json!(total.min_gap_any));
+    rep.cov("min_gap_between_two_requests_for_same_target_us", json!(total.min_gap_same));
+    rep.add_count("evaluations", total.n.get("frames_emitted").copied().unwrap_or(0));
+    rep.add_count("distinct_nontrivial", total.outcomes.len() as u64);
+    rep.cov(
+        "rule",
+        json!("per configuration: BFS over all event sequences up to the stated depth from the fresh interface, every event of the configuration's alphabet enabled in every state; states merged on a time-translation-invariant fingerprint of interface digest + sockets + model; every frame handed to the device in every transition is parsed independently and judged (unicast IP -> fresh eligible assertion for the model's next hop; socket datagrams in FIFO order exactly once; send_queue()==accepted-transmitted after every event; same-target discovery requests >= 1 s apart; Drain: answered next hop => oldest datagram transmitted in that poll). distinct_nontrivial = distinct (event kind -> emitted frame classes) outcomes; evaluations = frames judged (including BFS replays)"),
+    );
+    // written-out samples: one scripted scenario per medium with the frames it produced
+    for med in [Med::EthV4, Med::EthV6, Med::LowV6] {
+        if let Some((cfg, _)) = all_cfgs(tier).into_iter().find(|(c, _)| c.med == med && c.label.ends_with("/expiry")) {
+            let evs = [
+                send(0, Dst::N1),
+                Ev::Poll,
+                disc(Node::N1, DiscKind::Reply),
+                Ev::Poll,
+                Ev::Advance(59000),
+                traf(Node::N1, TrafKind::Quiet),
+                Ev::Advance(59000),
+                send(0, Dst::N1),
+                Ev::Poll,
+                Ev::Advance(1000),
+                send(0, Dst::N1),
+                Ev::Poll,
+            ];
+            let (log, v) = trace(&cfg, &evs);
+            rep.samples.push(json!({"scenario": format!("{}: resolve, refresh by traffic at 59 s, use at 118 s, expired at 119 s", med.name()), "log": log, "violations": v.iter().map(|v| v.sig.clone()).collect::<Vec<_>>()}));
+        }
+    }
+    for med in [Med::EthV4, Med::LowV6] {
+        if let Some((cfg, _)) = all_cfgs(tier).into_iter().find(|(c, _)| c.med == med && c.label.ends_with("/frag")) {
+            let evs = [send(0, Dst::N1), disc(Node::N1, DiscKind::Reply), Ev::Poll, Ev::Poll, send(0, Dst::N1), Ev::Poll, disc(Node::N1, DiscKind::ReplyAlt), Ev::Poll];
+            let (log, v) = trace(&cfg, &evs);
+            rep.samples.push(json!({"scenario": format!("{}: datagram in >= 3 fragments, one fragment per egress pass; second datagram: neighbor changes its address between two polls", med.name()), "log": log, "violations": v.iter().map(|v| v.sig.clone()).collect::<Vec<_>>()}));
+        }
+    }
+    rep.finish()
+}
+
+pub fn replay(art: &serde_json::Value) -> i32 {
+    let label = art["replay"]["harness"].as_str().unwrap_or("");
+    let slots = smoltcp::config::IFACE_NEIGHBOR_CACHE_COUNT;
+    let cfgs = all_cfgs(Tier::Quick);
+    let Some((cfg, _)) = cfgs.into_iter().find(|(c, _)| c.label == label) else {
+        eprintln!("MACHINERY ERROR: unknown configuration {:?}", label);
+        return 2;
+    };
+    let recorded = art["replay"]["config"].as_str().unwrap_or("");
+    if !recorded.contains(&format!("cache_slots: {},", slots)) {
+        eprintln!("note: artefact was recorded with a different IFACE_NEIGHBOR_CACHE_COUNT than this build ({}); use VERIF_VARIANT=small|default", slots);
+    }
+    let choices: Vec<u16> = art["replay"]["choices"].as_array().map(|a| a.iter().map(|x| x.as_u64().unwrap_or(0) as u16).collect()).unwrap_or_default();
+    let mut evs = vec![];
+    for c in &choices {
+        match cfg.alphabet.get(*c as usize) {
+            Some(e) => evs.push(*e),
+            None => {
+                eprintln!("MACHINERY ERROR: choice {} outside the alphabet of {}", c, label);
+                return 2;
+            }
+        }
+    }
+    let r = std::panic::catch_unwind(std::panic::AssertUnwindSafe(|| trace(&cfg, &evs)));
+    match r {
+        Err(e) => {
+            println!("panic: {} at {}", panic_msg(e), last_panic_loc());
+            1
+        }
+        Ok((log, viols)) => {
+            for l in log {
+                println!("{}", l);
+            }
+            let real: Vec<&Viol> = viols.iter().filter(|v| !v.sig.starts_with("MACHINERY/")).collect();
+            if real.is_empty() {
+                println!("no violation on replay");
+                0
+            } else {
+                for v in real {
+                    println!("violation: {} :: {}", v.sig, v.detail);
+                }
+                1
+            }
+        }
+    }
 }
